@@ -134,7 +134,7 @@ VARIANTS = [
     # ------------------------------------------------------------------ C15
     ("C15", S, "                index = max(np.searchsorted(t, t_target) - 1, 0)", "                index = max(np.searchsorted(t, t_target), 0)", "R-LOOKUP"),
     ("C15", S, "                index = max(np.searchsorted(t, t_target) - 1, 0)", "                index = np.searchsorted(t, t_target) - 1", "R-LOOKUP"),
-    ("C15", S, "                    x = self._extractObservationAtTime(simX, simT, t)", "                    x = self._extractObservationAtTime(simX, t, simT)", "R-GRIDIO"),
+    ("C15", S, "                    x = self._extractObservationAtTime(simX, simT, t)", "                    x = self._extractObservationAtTime(simX, t, simT)", "R-GRIDRUN"),
     ("C15", S, "weights=dX[:,i])", "weights=dX[:,0])", "R-LOOPDEP"),
     ("C15", S, "            hist, bin_edges=np.histogram(t[1:], bins=targetTime,", "            hist, bin_edges=np.histogram(t, bins=targetTime,", "R-LOOPDEP"),
     # ------------------------------------------------------------------ C16
